@@ -371,7 +371,7 @@ fn main() {
     }
     scaled_family_space(&ctx, if ctx.quick() { &[2, 3, 5, 8, 13, 21] } else { &[2, 3, 4, 5, 6, 8, 10, 13, 16, 21, 27, 34, 47, 60] });
     if ctx.quick() {
-        benign_space(&ctx, &[1, 2, 3, 5, 8, 13, 21, 34, 60]);
+        benign_space(&ctx, &[1, 2, 3, 5, 8, 13, 16, 21, 24, 32, 34, 40, 60]);
     } else {
         benign_space(&ctx, &[1, 2, 3, 4, 5, 6, 7, 8, 13, 21, 34, 47, 60]);
     }
